@@ -81,7 +81,7 @@ PROPS = {
         "rule": "subscription-api: hubs with the subscription API on both transports; 1-4 subscribers with 1-4 selectors over the escaping alphabet (space, '+', '/', '%', "
                 "'?#', '.', '..', ';', non-ASCII, U+0000, templates, already-escaped), some gone, publishes in between; the collection, every per-topic collection "
                 "(plus one nobody uses), the dereference of every listed id by the URL the API returned, unknown selector / unknown subscriber pairs, If-None-Match, and "
-                "caller claims {exact URL, template, '*', unrelated, none, empty} on two URLs; judged against Model/SubApi.v (listing, deref, sub_url, can_receive). "
+                "caller claims {exact URL, template, '*', unrelated, none, empty, the decoded form of an escaped URL, a template over the decoded form} on three URLs (one needing escaping); in 60% of the cases the history ends with a publish whose id the harness chose (to a topic somebody or nobody listens to) so that lastEventID / ETag are checked against an id known independently of the hub; judged against Model/SubApi.v (listing, deref, sub_url, can_receive). "
                 "non-trivial = at least two listed documents. hub-histories: " + HUB_RULE,
         "trusted": HUB_TRUST + ["gorilla/mux routing on the encoded path and net/http URL parsing: glue covered by the differential run only"],
         "assumptions": ["selectors and subscriber ids are non-empty byte strings"],
